@@ -191,6 +191,22 @@ var (
 		Text: "every function that takes a context.Context reaches the VM only through the recovering goroutine of the context-aware run method: none calls VM.Run, Compiled.Run or Script.Run directly"}
 	rNIL1 = &Rule{Name: "NIL.1", Floor: 8, Fn: ruleNIL1,
 		Text: "no Go nil becomes a script value: every read of a map[string]Object entry is a comma-ok lookup, compared with nil, handed to Equals, or assigned to a variable that is tested against nil before use"}
+	rSTK1 = &Rule{Name: "STK.1", Floor: 40, Fn: ruleSTK1,
+		Text: "effect typing of the code generator: every arm of Compiler.Compile and every compile helper, interpreted abstractly over the operand-stack height (Compile of an expression +1, of a statement 0; each emit with the stack effect of its opcode; element loops times their length; placeholder jumps carry the height of their landing point), raises the height by exactly 1 for an expression node and by 0 for a statement node on every path"}
+	rSTK2 = &Rule{Name: "STK.2", Floor: 40, Fn: ruleSTK2,
+		Text: "the stack-effect table STK.1 uses is the effect of the VM's arms: every arm of the dispatch switch, interpreted over the stack-pointer field, moves it on every completing path by exactly the table's effect in terms of the operand it decoded"}
+	rCALL1 = &Rule{Name: "CALL.1", Floor: 1, Fn: ruleCALL1,
+		Text: "the array of variadic arguments that OpCall builds stands on storage made in that arm, never on the slice of a spread operand (SSA value-origin analysis)"}
+	rADPT6 = &Rule{Name: "ADPT.6", Floor: 2, Fn: ruleADPT6,
+		Text: "the size-limited regexp replace substitutes, for every match, regexp's expansion of the template (never the raw template)"}
+	rDEDUP3 = &Rule{Name: "DEDUP.3", Floor: 5, Fn: ruleDEDUP3,
+		Text: "the Equals of the constant types RemoveDuplicates merges (numbers, strings, chars, builtin module maps) does not depend on object identity"}
+	rXCH5 = &Rule{Name: "XCH.5", Floor: 2, Fn: ruleXCH5,
+		Text: "the host's value is stored as it is by Add/prepCompile and Set (no Copy on the way in: Copy thaws immutable containers)"}
+	rCOPY2 = &Rule{Name: "COPY.2", Floor: 8, Fn: ruleCOPY2,
+		Text: "a copy is complete: the composite literal of every Copy method mentions every field of the type (embedded bases and tabled caches aside) - a compiled function's copy keeps its source map"}
+	rADPT7 = &Rule{Name: "ADPT.7", Floor: 3, Fn: ruleADPT7,
+		Text: "stdlib wrappers test indexes before using them: regexp submatch index pairs against -1 before slicing the subject, a string argument's length before indexing it at a constant position"}
 	rSEARCH1 = &Rule{Name: "SEARCH.1", Floor: 2, Fn: ruleSEARCH1,
 		Text: "the position→file lookup is `last file with Base <= x`: searchFiles is sort.Search over Base > x minus one (or a clone of its documented sibling searchInts), and both containment tests are Base <= p <= Base+Size"}
 )
@@ -200,11 +216,11 @@ func allProperties() []*Property {
 		{ID: "C01",
 			Decided:    "compiler, generic codec, opcode tables and every VM arm agree byte for byte on the instruction format.",
 			NotDecided: "the language semantics themselves (values computed by operators, control flow, scoping, builtins).",
-			Rules:      []*Rule{rCODEC1, rCODEC2, rCODEC3, rCODEC4, rFRESH, rOPARM, rOPDOC, rSEM, rSEM3, rIDX1, rTWIN1, rFAM1, rSYM1}},
+			Rules:      []*Rule{rCODEC1, rCODEC2, rCODEC3, rCODEC4, rFRESH, rOPARM, rOPDOC, rSEM, rSEM3, rIDX1, rTWIN1, rFAM1, rSYM1, rCALL1, rSTK1, rSTK2}},
 		{ID: "C02",
 			Decided:    "instruction format agreement; opcode-class agreement.",
 			NotDecided: "stack balance and jump well-formedness for all compiled programs.",
-			Rules:      []*Rule{rCODEC1, rCODEC2, rCODEC3, rCODEC4, rCODEC5, rJMP1, rJMP2, rJMP3, rSEM3, rRET1, rSCOPE1}},
+			Rules:      []*Rule{rCODEC1, rCODEC2, rCODEC3, rCODEC4, rCODEC5, rJMP1, rJMP2, rJMP3, rSEM3, rSTK1, rSTK2, rRET1, rSCOPE1}},
 		{ID: "C03",
 			Decided:    "the optimizer's notion of jump / terminator is the VM's (opcode classes extracted from the VM arms).",
 			NotDecided: "equivalence of optimised and unoptimised code for all programs.",
@@ -236,11 +252,11 @@ func allProperties() []*Property {
 		{ID: "C10",
 			Decided:    "Copy is deep and fresh for every container.",
 			NotDecided: "arithmetic results; NaN/±0 laws as numeric facts.",
-			Rules:      []*Rule{rCMP1, rCMP2, rCMP3, rCMP4, rCMP5, rCMP6, rCONV1, rFALSY1, rCOPY1, rTWIN1}},
+			Rules:      []*Rule{rCMP1, rCMP2, rCMP3, rCMP4, rCMP5, rCMP6, rCONV1, rFALSY1, rCOPY1, rCOPY2, rTWIN1}},
 		{ID: "C15",
 			Decided:    "type-level round trip of FromInterface/ToInterface; typed accessors call the documented conversion; Set/Get/GetAll guards; lock discipline; conversion table agreement.",
 			NotDecided: "the history clause (a variable reads as the last value set) over all call sequences.",
-			Rules:      []*Rule{rXCH, rXCH4, rSYM2, rLOCK, rCONV1, rCLONE1}},
+			Rules:      []*Rule{rXCH, rXCH4, rXCH5, rSYM2, rLOCK, rCONV1, rCLONE1}},
 		{ID: "C11",
 			Decided:    "the three variable families' selector-assignment arms are clones; operand decoding of all Local/Free/Global opcodes agrees with the encoder.",
 			NotDecided: "the metamorphic relation itself (needs executing transformed programs).",
@@ -252,11 +268,11 @@ func allProperties() []*Property {
 		{ID: "C14",
 			Decided:    "sentinel and host errors survive to the caller wrapped with %w; every instruction gets a source position keyed by its own offset, kept consistent through the optimizer; call-site ips are saved before frame switches and looked up innermost first.",
 			NotDecided: "that a reported position lies within the failing statement (depends on per-opcode ip bookkeeping and each program's source map).",
-			Rules:      []*Rule{rERR, rPOS1, rOPT, rSEARCH1, rDEDUP1}},
+			Rules:      []*Rule{rERR, rPOS1, rOPT, rSEARCH1, rDEDUP1, rRET1, rCOPY2}},
 		{ID: "C16",
 			Decided:    "the VM's tail-call predicate is exactly 'next is RET or POP;RET'; the reuse path grows no frame and overwrites parameter slots directly; the compiler places RET directly after the documented tail positions.",
 			NotDecided: "that deep recursion terminates with the right value.",
-			Rules:      []*Rule{rTAIL, rCODEC3}},
+			Rules:      []*Rule{rTAIL, rCODEC3, rCALL1}},
 		{ID: "C17",
 			Decided:    "all output goes through writers guarded by MaxStringLen; explicit panics are the limit error or proven unreachable; width/precision are bounded; printer pooling hygiene; verb dispatch, flag parsing and the verbatim-ported helpers agree with the building toolchain's fmt.",
 			NotDecided: "equality with fmt.Sprintf for all inputs (the non-identical parts of the port: fmtInteger, fmtFloat, fmtC, padding, doFormat's argument handling); implicit index panics inside digit loops.",
@@ -268,7 +284,7 @@ func allProperties() []*Property {
 		{ID: "C19",
 			Decided:    "the wiring of the stdlib modules: adapters do what their function type says; table keys name the Go function/constant they wrap; hand-written wrappers call the function their key names with arguments in order; documentation and tables agree; generated source is in sync.",
 			NotDecided: "the Go functions' results (they are the specification); value-level behaviour of hand-written wrappers (size limits, defaults).",
-			Rules:      []*Rule{rADPT1, rADPT2, rADPT3, rADPT4, rADPT5, rPORT1}},
+			Rules:      []*Rule{rADPT1, rADPT2, rADPT3, rADPT4, rADPT5, rADPT6, rADPT7, rPORT1}},
 		{ID: "C20",
 			Decided:    "documented precedence = implemented precedence with left-associative climbing; literal conversion is delegated to strconv on the token text; compound printers are self-delimiting and complete; the semicolon-insertion token set; every operator token the parser can produce is compiled to its own operator.",
 			NotDecided: "the re-parse/re-compile equality as a fact about all programs; literal values (delegated to strconv, trusted); comment/whitespace layouts.",
@@ -276,6 +292,6 @@ func allProperties() []*Property {
 		{ID: "C12",
 			Decided:    "constant re-indexing covers exactly the opcodes through which the VM reads the constant pool, with the operand layout of the tables.",
 			NotDecided: "behavioural equality after de-duplication / gob round trip.",
-			Rules:      []*Rule{rCODEC5, rDEDUP1, rGOB}},
+			Rules:      []*Rule{rCODEC5, rDEDUP1, rDEDUP3, rGOB}},
 	}
 }
